@@ -18,6 +18,10 @@ unchanged.  This module folds such edits back, on the syntax tree, so that the r
                      `acc = []` + `for ..: [if ..:] acc.append(e)` -> `acc = [e for .. if ..]` (also set/dict);
                      `for ..: if c: return True` + `return False` -> `return any(c for ..)`;
                      `for ..: if c: return e` + `return d` -> `return next((e for .. if c), d)`.
+  * table-dispatch   a lookup in a literal dict keyed by constants becomes the equivalent if/elif chain.
+  * merged-if        `if a: if b: BODY` -> `if a and b: BODY`.
+  * discard-to-remove `s.discard(e)` -> `if e in s: s.remove(e)`.
+  * renamed-local    a local defined exactly like a local of the pinned tree that is now missing gets its name back.
 
 Nothing here decides a property; the transformations are sound rewritings (conditions stated with each) and every node
 keeps the line number of the source construct it came from, so reports still point into /repo.
@@ -259,11 +263,68 @@ class Subst(ast.NodeTransformer):
         return n
 
 
+def signatures(fn):
+    """{local name: signature}: what defines each local (and comprehension binder) of the function, in closed form -
+    the text does not mention any single-assignment local, so it survives the renaming of the local itself and of the
+    intermediate values it is computed from."""
+    from .defuse import DefUse
+    du = DefUse(fn)
+    binds = {}
+
+    def bind(t, v):
+        if isinstance(t, ast.Name):
+            binds.setdefault(t.id, []).append(v)
+        elif isinstance(t, (ast.Tuple, ast.List)):
+            for i, el in enumerate(t.elts):
+                if isinstance(el, ast.Starred):
+                    bind(el.value, ('star', v, i))
+                else:
+                    bind(el, ('idx', v, i))
+    for n in own_nodes(fn):
+        if isinstance(n, ast.Assign):
+            for t in n.targets:
+                bind(t, n.value)
+        elif isinstance(n, ast.AnnAssign):
+            bind(n.target, n.value)
+        elif isinstance(n, ast.AugAssign):
+            bind(n.target, ('aug', n.value, type(n.op).__name__))
+        elif isinstance(n, ast.NamedExpr):
+            bind(n.target, n.value)
+        elif isinstance(n, (ast.For, ast.AsyncFor)):
+            bind(n.target, ('each', n.iter, 'for'))
+        elif isinstance(n, ast.comprehension):
+            bind(n.target, ('each', n.iter, 'comp'))
+        elif isinstance(n, ast.withitem) and n.optional_vars is not None:
+            bind(n.optional_vars, ('each', n.context_expr, 'with'))
+        elif isinstance(n, ast.ExceptHandler) and n.name:
+            binds.setdefault(n.name, []).append(('each', n.type, 'except') if n.type is not None else None)
+    params = set(param_names(fn))
+    out = {}
+
+    def text(v, me):
+        if v is None:
+            return 'None'
+        if isinstance(v, tuple):
+            return '%s(%s)%s' % (v[0], text(v[1], me), v[2])
+        try:
+            return ast.unparse(du.closed(v, bound={me: ast.Name(id='$self', ctx=ast.Load())}))
+        except RecursionError:
+            return '?'
+    for k, vs in binds.items():
+        if k in params:
+            continue
+        out[k] = ' | '.join(sorted(text(v, k) for v in vs))
+    return out
+
+
 # ------------------------------------------------------------------------------------------------ the pass
 class Canonicaliser:
-    def __init__(self, P, pinned=None):
+    def __init__(self, P, pinned=None, pinned_locals=None):
         self.P = P
         self.pinned = load_pinned() if pinned is None else pinned
+        if pinned_locals is None:
+            pinned_locals = json.loads(PINNED_FILE.read_text()).get('locals', {})
+        self.pinned_locals = pinned_locals
         self.log = []          # (kind, where, what) for the evidence file
         self.inlined = set()   # helper units folded at least once
         self.new_callables = {}    # simple name -> [(owner Cls|None, Mod, Unit)]
@@ -450,6 +511,17 @@ class Canonicaliser:
         elif mode == 'return' and falls:
             st = ast.Return(value=ast.Constant(value=None))
             body.append(ast.fix_missing_locations(ast.copy_location(st, call)))
+        # the folded statements take the place of the call: same line (so that orderings by position still hold), and
+        # a column that keeps their relative order
+        base = helper.node.lineno
+        for st in body:
+            for x in ast.walk(st):
+                if hasattr(x, 'lineno') and hasattr(x, 'col_offset'):
+                    x.col_offset = call.col_offset + 1000 * max(0, x.lineno - base) + x.col_offset
+                    x.lineno = call.lineno
+                    if hasattr(x, 'end_lineno'):
+                        x.end_lineno = call.lineno
+                        x.end_col_offset = x.col_offset + 1
         # drop `pass` fillers that are not alone in their block
         out = pre + body
         out = [s for s in out if not isinstance(s, ast.Pass)] or [ast.copy_location(ast.Pass(), call)]
@@ -609,6 +681,181 @@ class Canonicaliser:
                         return new
                     return n
             T().visit(u.node)
+
+    # ---------------------------------------------------------------- table dispatch -> if / elif chain
+    def dispatch(self, unit, fn):
+        """`T = {K1: V1, ..}` looked up with a pure key (`T.get(k)`, `T[k]`, `T[k](args)`) becomes the equivalent
+        `if k == K1: .. elif k == K2: ..` chain; when the looked-up value is only used by the statements that follow in
+        the same block, they are duplicated into each branch with the value substituted (so that a call through the
+        table is a call of the selected callee under the fact `k == Ki`)."""
+        P = self.P
+        stores = stored_names(fn)
+        local_tables = {}
+        for n in own_nodes(fn):
+            if isinstance(n, ast.Assign) and len(n.targets) == 1 and isinstance(n.targets[0], ast.Name) \
+                    and stores.get(n.targets[0].id) == 1 and self._is_table(n.value):
+                local_tables[n.targets[0].id] = n.value
+
+        def table_of(e):
+            if isinstance(e, ast.Name):
+                if e.id in local_tables:
+                    return local_tables[e.id]
+                if e.id in stores:
+                    return None
+                r = P.lookup(unit.mod, e.id)
+                if r and r[0] == 'alias' and r[1].short + ':' + e.id not in self.pinned and self._is_table(r[2]):
+                    return r[2]
+            elif isinstance(e, ast.Attribute) and isinstance(e.value, ast.Name):
+                c = None
+                if e.value.id in ('self', 'cls'):
+                    c = unit.cls
+                else:
+                    r = P.lookup(unit.mod, e.value.id)
+                    c = r[1] if r and r[0] == 'class' else None
+                mem = P.member(c, e.attr) if c is not None else None
+                if mem and mem[0] == 'cattr' and mem[1].name + '.' + e.attr not in self.pinned and \
+                        mem[2][1] is not None and self._is_table(mem[2][1]):
+                    return mem[2][1]
+            return None
+
+        def lookup_of(e):
+            """(table, key, default-or-None, raises) for T.get(k[, d]) / T[k]."""
+            if isinstance(e, ast.Call) and isinstance(e.func, ast.Attribute) and e.func.attr == 'get' \
+                    and 1 <= len(e.args) <= 2 and not e.keywords:
+                t = table_of(e.func.value)
+                if t is not None and pure(e.args[0]):
+                    return t, e.args[0], (e.args[1] if len(e.args) == 2 else ast.Constant(value=None)), False
+            if isinstance(e, ast.Subscript) and isinstance(e.ctx, ast.Load):
+                t = table_of(e.value)
+                if t is not None and pure(e.slice):
+                    return t, e.slice, None, True
+            return None
+
+        def chain(key, table, make, default_body, at):
+            first = cur = None
+            for k, v in zip(table.keys, table.values):
+                test = ast.Compare(left=copy.deepcopy(key), ops=[ast.Eq()], comparators=[copy.deepcopy(k)])
+                node = ast.If(test=test, body=make(v), orelse=[])
+                ast.copy_location(node, at)
+                if first is None:
+                    first = cur = node
+                else:
+                    cur.orelse = [node]
+                    cur = node
+            cur.orelse = default_body
+            ast.fix_missing_locations(first)
+            return first
+
+        def keyerror(key, at):
+            r = ast.Raise(exc=ast.Call(func=ast.Name(id='KeyError', ctx=ast.Load()), args=[copy.deepcopy(key)],
+                                       keywords=[]), cause=None)
+            r._synthetic = True
+            return [ast.fix_missing_locations(ast.copy_location(r, at))]
+
+        def simplify(stmts, name_true):
+            """fold `if <selected value>:` after substitution (a class or a bound method is truthy, None is not)."""
+            out = []
+            for st in stmts:
+                if isinstance(st, ast.If) and getattr(st.test, '_selected', None) is not None:
+                    out.extend(simplify(st.body if st.test._selected else st.orelse, name_true))
+                    continue
+                for owner, f in block_lists(st):
+                    new = simplify(getattr(owner, f), name_true)
+                    if not new and f == 'body':
+                        new = [ast.copy_location(ast.Pass(), st)]
+                    setattr(owner, f, new)
+                out.append(st)
+            return out
+
+        def dup(rest, name, value):
+            truthy = not (isinstance(value, ast.Constant) and value.value is None)
+
+            class S(ast.NodeTransformer):
+                def visit_Name(self, n):
+                    if n.id == name and isinstance(n.ctx, ast.Load):
+                        new = copy.deepcopy(value)
+                        for x in ast.walk(new):
+                            ast.copy_location(x, n)
+                        new._selected = truthy
+                        return new
+                    return n
+            return simplify([S().visit(copy.deepcopy(st)) for st in rest], truthy)
+
+        def uses(nodes, name):
+            return sum(1 for st in nodes for x in ast.walk(st) if isinstance(x, ast.Name) and x.id == name
+                       and isinstance(x.ctx, ast.Load))
+
+        changed = [False]
+
+        def do_list(stmts):
+            for st in stmts:
+                if not isinstance(st, (ast.FunctionDef, ast.AsyncFunctionDef, ast.ClassDef)):
+                    for owner, f in block_lists(st):
+                        setattr(owner, f, do_list(getattr(owner, f)))
+            out = []
+            for i, st in enumerate(stmts):
+                rest = stmts[i + 1:]
+                # x = T.get(k) / x = T[k]
+                if isinstance(st, ast.Assign) and len(st.targets) == 1 and isinstance(st.targets[0], ast.Name):
+                    lk = lookup_of(st.value)
+                    x = st.targets[0].id
+                    if lk and stores.get(x) == 1:
+                        table, key, default, raises = lk
+                        total = uses([fn], x)
+                        if rest and 0 < uses(rest, x) == total and len(rest) <= 8:
+                            def make(v, rest=rest, x=x):
+                                return dup(rest, x, v) or [ast.copy_location(ast.Pass(), st)]
+                            dflt = keyerror(key, st) if raises else (dup(rest, x, default) or [ast.copy_location(ast.Pass(), st)])
+                            out.append(chain(key, table, make, dflt, st))
+                            self.log.append(('table-dispatch', unit.loc(st), '%s: %s (continuation duplicated)' % (unit.qual, x)))
+                            changed[0] = True
+                            return out
+                        def make(v, st=st):
+                            n = ast.Assign(targets=[copy.deepcopy(st.targets[0])], value=copy.deepcopy(v))
+                            return [ast.fix_missing_locations(ast.copy_location(n, st))]
+                        dflt = keyerror(key, st) if raises else make(default)
+                        out.append(chain(key, table, make, dflt, st))
+                        self.log.append(('table-dispatch', unit.loc(st), '%s: %s' % (unit.qual, x)))
+                        changed[0] = True
+                        continue
+                # T[k](args) as the value of an expression statement, an assignment or a return
+                val = getattr(st, 'value', None) if isinstance(st, (ast.Expr, ast.Assign, ast.Return)) else None
+                if isinstance(val, ast.Call):
+                    lk = lookup_of(val.func)
+                    if lk:
+                        table, key, default, raises = lk
+
+                        def make(v, st=st):
+                            n = copy.deepcopy(st)
+                            n.value.func = copy.deepcopy(v)
+                            return [n]
+                        out.append(chain(key, table, make, keyerror(key, st), st))
+                        self.log.append(('table-dispatch', unit.loc(st), '%s: call through a table' % unit.qual))
+                        changed[0] = True
+                        continue
+                out.append(st)
+            return out
+        fn.body = do_list(fn.body)
+        if changed[0]:
+            # a local table that is no longer read is dead
+            live = {n.id for n in ast.walk(fn) if isinstance(n, ast.Name) and isinstance(n.ctx, ast.Load)}
+
+            def prune(stmts):
+                out = []
+                for st in stmts:
+                    for owner, f in block_lists(st) if not isinstance(st, (ast.FunctionDef, ast.ClassDef)) else ():
+                        setattr(owner, f, prune(getattr(owner, f)) or [ast.copy_location(ast.Pass(), st)])
+                    if isinstance(st, ast.Assign) and len(st.targets) == 1 and isinstance(st.targets[0], ast.Name) \
+                            and st.targets[0].id in local_tables and st.targets[0].id not in live:
+                        continue
+                    out.append(st)
+                return out
+            fn.body = prune(fn.body)
+
+    @staticmethod
+    def _is_table(v):
+        return isinstance(v, ast.Dict) and len(v.keys) >= 2 and all(k is not None and simple_const(k) for k in v.keys) \
+            and all(pure(x) for x in v.values)
 
     # ---------------------------------------------------------------- local aliases
     def aliases(self, unit, fn):
@@ -833,9 +1080,21 @@ class Canonicaliser:
                                     ast.fix_missing_locations(new)
                                     # the assignment takes the place of the loop (the statements in between come first)
                                     out.extend(stmts[i + 1:j])
-                                    out.append(ast.copy_location(new, stmts[j]))
                                     me.log.append(('loop-to-comprehension', unit.loc(stmts[j]), '%s: %s' % (unit.qual, t.id)))
-                                    i = j + 1
+                                    nxt = stmts[j + 1] if j + 1 < len(stmts) else None
+                                    n_use = sum(1 for x in ast.walk(fn) if isinstance(x, ast.Name) and x.id == t.id
+                                                and isinstance(x.ctx, ast.Load))
+                                    # (the function still holds the loop here: one load in the loop, one in nxt)
+                                    if nxt is not None and n_use == 2 and isinstance(nxt, (ast.Return, ast.Assign, ast.Expr)) \
+                                            and sum(1 for x in ast.walk(nxt) if isinstance(x, ast.Name) and x.id == t.id
+                                                    and isinstance(x.ctx, ast.Load)) == 1 and \
+                                            sum(1 for x in ast.walk(fn) if isinstance(x, ast.Name) and x.id == t.id) == 3:
+                                        # the accumulator was only a name for the value handed to the next statement
+                                        out.append(Subst({t.id: comp}).visit(nxt))
+                                        i = j + 2
+                                    else:
+                                        out.append(ast.copy_location(new, stmts[j]))
+                                        i = j + 1
                                     done = True
                 # search pattern: for ..: if c: return e   /   return d
                 if not done and isinstance(st, ast.For) and i + 1 < len(stmts) and isinstance(stmts[i + 1], ast.Return):
@@ -846,6 +1105,10 @@ class Canonicaliser:
                         c = conj(conds)
                         if isinstance(val, ast.Constant) and val.value is True and isinstance(dflt, ast.Constant) \
                                 and dflt.value is False and c is not None:
+                            # any(A and B for ..) == any(B for .. if A): the last conjunct is the element
+                            if isinstance(c, ast.BoolOp) and isinstance(c.op, ast.And):
+                                gens[-1].ifs = [conj(c.values[:-1])]
+                                c = c.values[-1]
                             call = ast.Call(func=ast.Name(id='any', ctx=ast.Load()),
                                             args=[ast.GeneratorExp(elt=c, generators=gens)], keywords=[])
                         else:
@@ -881,12 +1144,90 @@ class Canonicaliser:
                     break
         self.constants()
         for u in units:
+            self.dispatch(u, u.node)
             self.aliases(u, u.node)
             self.loops(u, u.node)
+            self.discards(u, u.node)
+            self.merge_ifs(u, u.node)
         self.drop_absorbed()
+        for u in units:
+            self.rename_back(u, u.node)
         for m in P.mods.values():
             ast.fix_missing_locations(m.tree)
         return {name: m.tree for name, m in P.mods.items()}
+
+    # ---------------------------------------------------------------- set.discard
+    def discards(self, unit, fn):
+        """`s.discard(e)` (pure s and e; discard exists on sets only) is `if e in s: s.remove(e)`."""
+        me = self
+
+        def do_list(stmts):
+            out = []
+            for st in stmts:
+                if not isinstance(st, (ast.FunctionDef, ast.AsyncFunctionDef, ast.ClassDef)):
+                    for owner, f in block_lists(st):
+                        setattr(owner, f, do_list(getattr(owner, f)))
+                c = st.value if isinstance(st, ast.Expr) else None
+                if isinstance(c, ast.Call) and isinstance(c.func, ast.Attribute) and c.func.attr == 'discard' and \
+                        len(c.args) == 1 and not c.keywords and pure(c.func.value) and pure(c.args[0]):
+                    rm = copy.deepcopy(st)
+                    rm.value.func.attr = 'remove'
+                    test = ast.Compare(left=copy.deepcopy(c.args[0]), ops=[ast.In()], comparators=[copy.deepcopy(c.func.value)])
+                    new = ast.If(test=test, body=[rm], orelse=[])
+                    out.append(ast.fix_missing_locations(ast.copy_location(new, st)))
+                    me.log.append(('discard-to-remove', unit.loc(st), unit.qual))
+                    continue
+                out.append(st)
+            return out
+        fn.body = do_list(fn.body)
+
+    # ---------------------------------------------------------------- nested ifs
+    def merge_ifs(self, unit, fn):
+        """`if a:` whose whole body is `if b: BODY` (no else on either) is `if a and b: BODY`."""
+        me = self
+
+        def do_list(stmts):
+            for st in stmts:
+                if isinstance(st, (ast.FunctionDef, ast.AsyncFunctionDef, ast.ClassDef)):
+                    continue
+                for owner, f in block_lists(st):
+                    setattr(owner, f, do_list(getattr(owner, f)))
+                while isinstance(st, ast.If) and not st.orelse and len(st.body) == 1 and isinstance(st.body[0], ast.If) \
+                        and not st.body[0].orelse:
+                    inner = st.body[0]
+                    vals = []
+                    for t in (st.test, inner.test):
+                        vals += t.values if isinstance(t, ast.BoolOp) and isinstance(t.op, ast.And) else [t]
+                    st.test = ast.copy_location(ast.BoolOp(op=ast.And(), values=vals), st.test)
+                    st.body = inner.body
+                    me.log.append(('merged-if', unit.loc(st), unit.qual))
+            return stmts
+        do_list(fn.body)
+
+    # ---------------------------------------------------------------- renamed locals
+    def rename_back(self, unit, fn):
+        """a local that the pinned tree does not know, defined exactly like a local of the pinned tree that is now
+        missing, gets the pinned name back (the rules name the intermediate values as the pinned tree does)."""
+        pin = self.pinned_locals.get(unit.qual)
+        if not pin:
+            return
+        for _ in range(3):
+            cur = signatures(fn)
+            missing = {p: sg for p, sg in pin.items() if p not in cur}
+            if not missing:
+                return
+            rename = {}
+            for k, sg in cur.items():
+                if k in pin:
+                    continue
+                cands = [p for p, s in missing.items() if s == sg and p not in rename.values()]
+                if len(cands) == 1 and sum(1 for k2, s2 in cur.items() if k2 not in pin and s2 == sg) == 1:
+                    rename[k] = cands[0]
+            if not rename:
+                return
+            Subst({}, rename).visit(fn)
+            for k, v in rename.items():
+                self.log.append(('renamed-local', unit.loc(), '%s: %s -> %s' % (unit.qual, k, v)))
 
     def drop_absorbed(self):
         P = self.P
